@@ -325,5 +325,576 @@ theorem constType_nondyn (hT : TblOK ctx.tbl) (e : Expr F) :
   | call2 fn a b iha ihb => intro t h hd; simp [isDyn] at hd
   | call3 fn a b d iha ihb ihd => intro t h hd; simp [isDyn] at hd
   | callMany fn => intro t h hd; simp [isDyn] at hd
+
+/-! ### the evaluator against the big-step reference -/
+
+/-- TICKscript has no literal for a missing value. -/
+def noMissingLit : Expr F → Bool
+  | .lit .missing => false
+  | .un _ e => noMissingLit e
+  | .bin _ l r => noMissingLit l && noMissingLit r
+  | .call1 _ a => noMissingLit a
+  | .call2 _ a b => noMissingLit a && noMissingLit b
+  | .call3 _ a b d => noMissingLit a && noMissingLit b && noMissingLit d
+  | _ => true
+
+/-- the signature of a builtin the model defines itself declares the type the builtin returns; no builtin
+returns a missing or invalid value. -/
+def nativeSigOK (s : Sig) : Bool :=
+  (s.name != "count" || s.ret == .int) && (s.name != "sigma" || s.ret == .float) &&
+  (s.name != "spread" || s.ret == .float) && (s.name != "isPresent" || s.ret == .bool) &&
+  (s.name != "if" || s.dom == [.bool, s.ret, s.ret]) && s.ret != .missing && s.ret != .invalid
+
+/-- what the proofs need from the builtins: signatures as above, and library functions return values of the
+type their signature declares. -/
+structure FnOK : Prop where
+  sigs : ∀ s ∈ ctx.sigs, nativeSigOK s = true
+  oracle : ∀ fn args v t, ctx.call fn args = some (.ok v) → sigType ctx fn (args.map Value.ty) = some t → v.ty = t
+
+theorem sigType_mem {fn : String} {tys : List Ty} {t : Ty} (h : sigType ctx fn tys = some t) :
+    ∃ s ∈ ctx.sigs, s.name = fn ∧ s.dom = tys ∧ s.ret = t := by
+  unfold sigType at h
+  split at h
+  · rename_i s hs
+    have h1 := List.find?_some hs
+    have h2 := List.mem_of_find?_eq_some hs
+    simp only [Bool.and_eq_true, beq_iff_eq] at h1
+    exact ⟨s, h2, h1.1, h1.2, Option.some.inj h⟩
+  · cases h
+
+theorem chk_id (w : Ty) (o : Outcome (Value F)) (h : ∀ v, o = .ok v → v.ty = w) : chk w o = o := by
+  unfold chk
+  split
+  · rename_i v; simp [h v rfl]
+  · rfl
+
+theorem call_ty (hF : FnOK ctx) (fn : String) (args : List (Value F)) (st : FnState F) (t : Ty) (v : Value F)
+    (hs : sigType ctx fn (args.map Value.ty) = some t) (hv : (callFn ctx fn args st).1 = .ok v) : v.ty = t := by
+  obtain ⟨s, hmem, hname, hdom, hret⟩ := sigType_mem ctx hs
+  have hok := hF.sigs s hmem
+  simp only [nativeSigOK, Bool.and_eq_true, Bool.or_eq_true, bne_iff_ne, beq_iff_eq, ne_eq] at hok
+  obtain ⟨⟨⟨⟨⟨⟨o1, o2⟩, o3⟩, o4⟩, o5⟩, _⟩, _⟩ := hok
+  rw [hname] at o1 o2 o3 o4 o5
+  unfold callFn at hv
+  by_cases h1 : fn = "count"
+  · simp only [h1, if_true] at hv
+    cases hv
+    rcases o1 with o1 | o1
+    · exact absurd h1 o1
+    · simp [Value.ty, ← hret, o1]
+  simp only [h1, if_false] at hv
+  by_cases h2 : fn = "sigma"
+  · simp only [h2, if_true] at hv
+    split at hv
+    · cases hv
+      rcases o2 with o2 | o2
+      · exact absurd h2 o2
+      · simp [Value.ty, ← hret, o2]
+    · cases hv
+  simp only [h2, if_false] at hv
+  by_cases h3 : fn = "spread"
+  · simp only [h3, if_true] at hv
+    split at hv
+    · cases hv
+      rcases o3 with o3 | o3
+      · exact absurd h3 o3
+      · simp [Value.ty, ← hret, o3]
+    · cases hv
+  simp only [h3, if_false] at hv
+  by_cases h4 : fn = "if"
+  · simp only [h4, if_true] at hv
+    split at hv
+    · rename_i c a b
+      split at hv
+      · rename_i hab
+        cases hv
+        rcases o5 with o5 | o5
+        · exact absurd h4 o5
+        · rw [o5] at hdom
+          simp only [List.map, List.cons.injEq] at hdom
+          obtain ⟨_, ha, hb, _⟩ := hdom
+          rw [hret] at ha hb
+          split <;> simp [← ha, ← hb]
+      · cases hv
+    · cases hv
+  simp only [h4, if_false] at hv
+  by_cases h5 : fn = "isPresent"
+  · simp only [h5, if_true] at hv
+    split at hv
+    · cases hv
+      rcases o4 with o4 | o4
+      · exact absurd h5 o4
+      · simp [Value.ty, ← hret, o4]
+    · cases hv
+  simp only [h5, if_false] at hv
+  by_cases h6 : fn = "strSubstring"
+  · simp only [h6, if_true] at hv
+    split at hv
+    · rename_i s0 start stop
+      repeat' split at hv
+      all_goals first | (cases hv; done) | skip
+      rename_i v0 hcall
+      cases hv
+      exact hF.oracle _ _ _ _ hcall (by rw [← h6]; exact hs)
+    · cases hv
+  simp only [h6, if_false] at hv
+  split at hv
+  · split at hv
+    · rename_i v0 hcall
+      cases hv
+      exact hF.oracle _ _ _ _ hcall hs
+    · cases hv
+  · cases hv
+
+theorem ty_ne_invalid (v : Value F) : v.ty ≠ .invalid := by cases v <;> simp [Value.ty]
+
+/-- a well-typed expression never has the invalid type, and has the missing type only when it is a
+reference to a missing field. -/
+theorem typeRef_shape (hF : FnOK ctx) (e : Expr F) (t : Ty) (hwf : noMissingLit e = true)
+    (h : typeRef ctx σ e = some t) :
+    t ≠ .invalid ∧ (t = .missing → ∃ n, e = .ref n ∧ σ.get n = some .missing) := by
+  have hsig : ∀ fn tys, sigType ctx fn tys = some t → t ≠ .invalid ∧ t ≠ .missing := by
+    intro fn tys hs
+    obtain ⟨s, hmem, _, _, hret⟩ := sigType_mem ctx hs
+    have hok := hF.sigs s hmem
+    simp only [nativeSigOK, Bool.and_eq_true, bne_iff_ne, ne_eq] at hok
+    rw [hret] at hok
+    exact ⟨hok.2, hok.1.2⟩
+  cases e with
+  | lit v =>
+    simp only [typeRef] at h
+    cases h
+    refine ⟨ty_ne_invalid v, fun hm => ?_⟩
+    cases v <;> simp [Value.ty, noMissingLit] at hm hwf
+  | ref n =>
+    simp only [typeRef] at h
+    cases hg : σ.get n with
+    | none => simp [hg] at h
+    | some v =>
+      simp [hg] at h
+      subst h
+      refine ⟨ty_ne_invalid v, fun hm => ⟨n, rfl, ?_⟩⟩
+      cases v <;> simp [Value.ty] at hm
+      exact hg
+  | un op e =>
+    cases op with
+    | not =>
+      simp only [typeRef] at h
+      split at h <;> cases h
+      exact ⟨by simp, by simp⟩
+    | neg =>
+      simp only [typeRef] at h
+      split at h <;> cases h <;> exact ⟨by simp, by simp⟩
+  | bin op l r =>
+    simp only [typeRef] at h
+    cases hl : typeRef ctx σ l with
+    | none => simp [hl] at h
+    | some tl =>
+      cases hr : typeRef ctx σ r with
+      | none => simp [hl, hr] at h
+      | some tr =>
+        simp only [hl, hr] at h
+        have := binType_val h
+        cases t <;> simp [isValTy] at this <;> exact ⟨by simp, by simp⟩
+  | call0 fn =>
+    simp only [typeRef] at h
+    have := hsig _ _ h
+    exact ⟨this.1, fun hm => absurd hm this.2⟩
+  | call1 fn a =>
+    simp only [typeRef] at h
+    cases ha : typeRef ctx σ a with
+    | none => simp [ha] at h
+    | some ta =>
+      simp [ha] at h
+      have := hsig _ _ h
+      exact ⟨this.1, fun hm => absurd hm this.2⟩
+  | call2 fn a b =>
+    simp only [typeRef] at h
+    cases ha : typeRef ctx σ a with
+    | none => simp [ha] at h
+    | some ta =>
+      cases hb : typeRef ctx σ b with
+      | none => simp [ha, hb] at h
+      | some tb =>
+        simp [ha, hb] at h
+        have := hsig _ _ h
+        exact ⟨this.1, fun hm => absurd hm this.2⟩
+  | call3 fn a b d =>
+    simp only [typeRef] at h
+    cases ha : typeRef ctx σ a with
+    | none => simp [ha] at h
+    | some ta =>
+      cases hb : typeRef ctx σ b with
+      | none => simp [ha, hb] at h
+      | some tb =>
+        cases hd : typeRef ctx σ d with
+        | none => simp [ha, hb, hd] at h
+        | some td =>
+          simp [ha, hb, hd] at h
+          have := hsig _ _ h
+          exact ⟨this.1, fun hm => absurd hm this.2⟩
+  | callMany fn => simp [typeRef] at h
+
+/-- the statement proved by induction: on a well-typed point the evaluator asked for the reference type
+returns the reference outcome and keeps the state simulation. -/
+def Agree (e : Expr F) : Prop :=
+  ∀ (t : Ty) (st : FnState F) (h : Hist F), StateRel ctx st h → typeRef ctx σ e = some t →
+    (evalN ctx σ t e st).1 = (valRef ctx σ e h).1 ∧ StateRel ctx (evalN ctx σ t e st).2 (valRef ctx σ e h).2
+
+/-- evaluation of one function argument (`Type`, then the `EvalX` of that type; a missing reference is a value). -/
+theorem arg_agree (hT : TblOK ctx.tbl) (hF : FnOK ctx) (a : Expr F) (ta : Ty) (st : FnState F) (h : Hist F)
+    (hwf : noMissingLit a = true) (hr : StateRel ctx st h) (ht : typeRef ctx σ a = some ta) (ih : Agree ctx σ a) :
+    (argEvalN (typeP ctx σ a) (missOk a) st (fun t => evalN ctx σ t a st)).1 = (valRef ctx σ a h).1 ∧
+    StateRel ctx (argEvalN (typeP ctx σ a) (missOk a) st (fun t => evalN ctx σ t a st)).2 (valRef ctx σ a h).2 ∧
+    (∀ v, (valRef ctx σ a h).1 = .ok v → v.ty = ta) := by
+  rw [typeP_typeRef ctx σ hT a ta ht]
+  obtain ⟨hne, hmiss⟩ := typeRef_shape ctx σ hF a ta hwf ht
+  by_cases hm : ta = .missing
+  · obtain ⟨n, rfl, hg⟩ := hmiss hm
+    subst hm
+    simp [argEvalN, missOk, valRef, hg, hr, Value.ty]
+  · obtain ⟨a1, a2⟩ := ih ta st h hr ht
+    have : argEvalN (some ta) (missOk a) st (fun t => evalN ctx σ t a st) = evalN ctx σ ta a st := by
+      cases ta <;> simp_all [argEvalN]
+    rw [this]
+    refine ⟨a1, a2, fun v hv => ?_⟩
+    exact evalN_ty ctx σ a ta st v (by rw [a1, hv])
+
+theorem canon_fields (e : Entry) (h : canon e = true) :
+    e.lm = e.lt ∧ e.rm = e.rt ∧ e.ret = e.res ∧
+    e.shape = (match e.op with | .and => .andSC | .or => .orSC | _ => .plain) := by
+  simp only [canon, Bool.and_eq_true, beq_iff_eq] at h
+  exact ⟨h.1.1.1.1.1, h.1.1.1.1.2, h.1.1.1.2, h.1.2⟩
+
+theorem compute_ty (e : Entry) (vl vr v : Value F) (h : e.compute ctx.ops ctx.reMatch vl vr = .ok v) : v.ty = e.res := by
+  unfold Entry.compute at h
+  cases hz : (e.zeroGuard && isZeroV vr) with
+  | true => simp [hz] at h
+  | false =>
+    simp only [hz] at h
+    cases hr : RExp.eval ctx.ops ctx.reMatch vl vr e.rexp with
+    | ok u =>
+      simp only [hr] at h
+      by_cases hu : u.ty = e.res
+      · simp [hu] at h; subst h; exact hu
+      · simp [hu] at h
+    | err => simp [hr] at h
+    | trap => simp [hr] at h
+
+theorem agree_all (hT : TblOK ctx.tbl) (hF : FnOK ctx) (e : Expr F) : noMissingLit e = true → Agree ctx σ e := by
+  induction e with
+  | lit v =>
+    intro _ t st h hr ht
+    simp only [typeRef] at ht
+    cases ht
+    simp [evalN, valRef, chk, hr]
+  | ref n =>
+    intro _ t st h hr ht
+    simp only [typeRef] at ht
+    cases hg : σ.get n with
+    | none => simp [hg] at ht
+    | some v =>
+      simp [hg] at ht
+      subst ht
+      simp [evalN, valRef, chk, hg, hr]
+  | call0 fn =>
+    intro _ t st h hr ht
+    simp only [typeRef] at ht
+    obtain ⟨c1, c2⟩ := callFn_refCall ctx fn [] st h hr
+    simp only [evalN, valRef]
+    rw [chk_id t _ (fun v hv => call_ty ctx hF fn [] st t v (by simpa using ht) hv)]
+    exact ⟨c1, c2⟩
+  | callMany fn => intro _ t st h hr ht; simp [typeRef] at ht
+  | un op e ih =>
+    intro hwf t st h hr ht
+    have ihe := ih (by simpa [noMissingLit] using hwf)
+    have htp := typeP_typeRef ctx σ hT (.un op e) t ht
+    cases op with
+    | not =>
+      simp only [typeRef] at ht
+      split at ht
+      · rename_i hte
+        cases ht
+        obtain ⟨a1, a2⟩ := ihe .bool st h hr hte
+        simp only [evalN, valRef, htp]
+        rcases hv : valRef ctx σ e h with ⟨ro, h'⟩
+        rcases hn : evalN ctx σ .bool e st with ⟨r, st'⟩
+        rw [hv, hn] at a1 a2
+        simp only at a1 a2
+        subst a1
+        cases r with
+        | ok v =>
+          have hty := evalN_ty ctx σ e .bool st v (by rw [hn])
+          cases v <;> simp [Value.ty] at hty
+          simp [negate, a2]
+        | err => simp [a2]
+        | trap => simp [a2]
+      · cases ht
+    | neg =>
+      simp only [typeRef] at ht
+      have key : ∀ t', typeRef ctx σ e = some t' → t' = t → (t = .int ∨ t = .float ∨ t = .duration) →
+          (evalN ctx σ t (.un .neg e) st).1 = (valRef ctx σ (.un .neg e) h).1 ∧
+          StateRel ctx (evalN ctx σ t (.un .neg e) st).2 (valRef ctx σ (.un .neg e) h).2 := by
+        intro t' hte htt hcase
+        subst htt
+        obtain ⟨a1, a2⟩ := ihe t' st h hr hte
+        have hw : (t' = .bool ∨ t' = .int ∨ t' = .float ∨ t' = .duration) := Or.inr hcase
+        have hnb : ¬ (t' = .bool ∧ UOp.neg ≠ UOp.not) := by
+          rcases hcase with rfl | rfl | rfl <;> simp
+        simp only [evalN, valRef, htp, hw, hnb, if_true, if_false]
+        rcases hv : valRef ctx σ e h with ⟨ro, h'⟩
+        rcases hn : evalN ctx σ t' e st with ⟨r, st'⟩
+        rw [hv, hn] at a1 a2
+        simp only at a1 a2
+        subst a1
+        cases r with
+        | ok v =>
+          have hty := evalN_ty ctx σ e t' st v (by rw [hn])
+          rcases hcase with rfl | rfl | rfl <;> cases v <;> simp [Value.ty] at hty <;>
+            simp [negate, a2, Int.neg_one_mul]
+        | err => simp [a2]
+        | trap => simp [a2]
+      split at ht
+      · rename_i he; cases ht; exact key _ he rfl (Or.inl rfl)
+      · rename_i he; cases ht; exact key _ he rfl (Or.inr (Or.inl rfl))
+      · rename_i he; cases ht; exact key _ he rfl (Or.inr (Or.inr rfl))
+      · cases ht
+  | call1 fn a iha =>
+    intro hwf t st h hr ht
+    have wa : noMissingLit a = true := by simpa [noMissingLit] using hwf
+    simp only [typeRef] at ht
+    cases hta : typeRef ctx σ a with
+    | none => simp [hta] at ht
+    | some ta =>
+      simp [hta] at ht
+      obtain ⟨a1, a2, a3⟩ := arg_agree ctx σ hT hF a ta st h wa hr hta (iha wa)
+      simp only [evalN, valRef]
+      rcases hv : valRef ctx σ a h with ⟨ro, h1⟩
+      rcases hn : argEvalN (typeP ctx σ a) (missOk a) st (fun t => evalN ctx σ t a st) with ⟨r1, s1⟩
+      rw [hv, hn] at a1 a2
+      rw [hv] at a3
+      simp only at a1 a2 a3
+      subst a1
+      cases r1 with
+      | ok v1 =>
+        simp only
+        obtain ⟨c1, c2⟩ := callFn_refCall ctx fn [v1] s1 h1 a2
+        have hs : sigType ctx fn ([v1].map Value.ty) = some t := by simpa [a3 v1 rfl] using ht
+        rw [chk_id t _ (fun v hv => call_ty ctx hF fn [v1] s1 t v hs hv)]
+        exact ⟨c1, c2⟩
+      | err => exact ⟨rfl, a2⟩
+      | trap => exact ⟨rfl, a2⟩
+  | call2 fn a b iha ihb =>
+    intro hwf t st h hr ht
+    have w : noMissingLit a = true ∧ noMissingLit b = true := by simpa [noMissingLit] using hwf
+    simp only [typeRef] at ht
+    cases hta : typeRef ctx σ a with
+    | none => simp [hta] at ht
+    | some ta =>
+      cases htb : typeRef ctx σ b with
+      | none => simp [hta, htb] at ht
+      | some tb =>
+        simp [hta, htb] at ht
+        obtain ⟨a1, a2, a3⟩ := arg_agree ctx σ hT hF a ta st h w.1 hr hta (iha w.1)
+        simp only [evalN, valRef]
+        rcases hv : valRef ctx σ a h with ⟨ro, h1⟩
+        rcases hn : argEvalN (typeP ctx σ a) (missOk a) st (fun t => evalN ctx σ t a st) with ⟨r1, s1⟩
+        rw [hv, hn] at a1 a2
+        rw [hv] at a3
+        simp only at a1 a2 a3
+        subst a1
+        cases r1 with
+        | ok v1 =>
+          simp only
+          obtain ⟨b1, b2, b3⟩ := arg_agree ctx σ hT hF b tb s1 h1 w.2 a2 htb (ihb w.2)
+          rcases hv2 : valRef ctx σ b h1 with ⟨ro2, h2⟩
+          rcases hn2 : argEvalN (typeP ctx σ b) (missOk b) s1 (fun t => evalN ctx σ t b s1) with ⟨r2, s2⟩
+          rw [hv2, hn2] at b1 b2
+          rw [hv2] at b3
+          simp only at b1 b2 b3
+          subst b1
+          cases r2 with
+          | ok v2 =>
+            simp only
+            obtain ⟨c1, c2⟩ := callFn_refCall ctx fn [v1, v2] s2 h2 b2
+            have hs : sigType ctx fn ([v1, v2].map Value.ty) = some t := by simpa [a3 v1 rfl, b3 v2 rfl] using ht
+            rw [chk_id t _ (fun v hv => call_ty ctx hF fn [v1, v2] s2 t v hs hv)]
+            exact ⟨c1, c2⟩
+          | err => exact ⟨rfl, b2⟩
+          | trap => exact ⟨rfl, b2⟩
+        | err => exact ⟨rfl, a2⟩
+        | trap => exact ⟨rfl, a2⟩
+  | call3 fn a b d iha ihb ihd =>
+    intro hwf t st h hr ht
+    have w : (noMissingLit a = true ∧ noMissingLit b = true) ∧ noMissingLit d = true := by simpa [noMissingLit] using hwf
+    simp only [typeRef] at ht
+    cases hta : typeRef ctx σ a with
+    | none => simp [hta] at ht
+    | some ta =>
+      cases htb : typeRef ctx σ b with
+      | none => simp [hta, htb] at ht
+      | some tb =>
+        cases htd : typeRef ctx σ d with
+        | none => simp [hta, htb, htd] at ht
+        | some td =>
+          simp [hta, htb, htd] at ht
+          obtain ⟨a1, a2, a3⟩ := arg_agree ctx σ hT hF a ta st h w.1.1 hr hta (iha w.1.1)
+          simp only [evalN, valRef]
+          rcases hv : valRef ctx σ a h with ⟨ro, h1⟩
+          rcases hn : argEvalN (typeP ctx σ a) (missOk a) st (fun t => evalN ctx σ t a st) with ⟨r1, s1⟩
+          rw [hv, hn] at a1 a2
+          rw [hv] at a3
+          simp only at a1 a2 a3
+          subst a1
+          cases r1 with
+          | ok v1 =>
+            simp only
+            obtain ⟨b1, b2, b3⟩ := arg_agree ctx σ hT hF b tb s1 h1 w.1.2 a2 htb (ihb w.1.2)
+            rcases hv2 : valRef ctx σ b h1 with ⟨ro2, h2⟩
+            rcases hn2 : argEvalN (typeP ctx σ b) (missOk b) s1 (fun t => evalN ctx σ t b s1) with ⟨r2, s2⟩
+            rw [hv2, hn2] at b1 b2
+            rw [hv2] at b3
+            simp only at b1 b2 b3
+            subst b1
+            cases r2 with
+            | ok v2 =>
+              simp only
+              obtain ⟨d1, d2, d3⟩ := arg_agree ctx σ hT hF d td s2 h2 w.2 b2 htd (ihd w.2)
+              rcases hv3 : valRef ctx σ d h2 with ⟨ro3, h3⟩
+              rcases hn3 : argEvalN (typeP ctx σ d) (missOk d) s2 (fun t => evalN ctx σ t d s2) with ⟨r3, s3⟩
+              rw [hv3, hn3] at d1 d2
+              rw [hv3] at d3
+              simp only at d1 d2 d3
+              subst d1
+              cases r3 with
+              | ok v3 =>
+                simp only
+                obtain ⟨c1, c2⟩ := callFn_refCall ctx fn [v1, v2, v3] s3 h3 d2
+                have hs : sigType ctx fn ([v1, v2, v3].map Value.ty) = some t := by
+                  simpa [a3 v1 rfl, b3 v2 rfl, d3 v3 rfl] using ht
+                rw [chk_id t _ (fun v hv => call_ty ctx hF fn [v1, v2, v3] s3 t v hs hv)]
+                exact ⟨c1, c2⟩
+              | err => exact ⟨rfl, d2⟩
+              | trap => exact ⟨rfl, d2⟩
+            | err => exact ⟨rfl, b2⟩
+            | trap => exact ⟨rfl, b2⟩
+          | err => exact ⟨rfl, a2⟩
+          | trap => exact ⟨rfl, a2⟩
+  | bin op l r ihl ihr =>
+    intro hwf t st h hr ht
+    have w : noMissingLit l = true ∧ noMissingLit r = true := by simpa [noMissingLit] using hwf
+    simp only [typeRef] at ht
+    cases htl : typeRef ctx σ l with
+    | none => simp [htl] at ht
+    | some tl =>
+      cases htr : typeRef ctx σ r with
+      | none => simp [htl, htr] at ht
+      | some tr =>
+        simp only [htl, htr] at ht
+        obtain ⟨ent, hent, hret⟩ := lookup_of_binType hT ht
+        have hspec : specN ctx σ op l r = (false, some ent) := by
+          unfold specN
+          split
+          · simp [typeP_typeRef ctx σ hT l tl htl, typeP_typeRef ctx σ hT r tr htr, hent]
+          · rename_i hd
+            have hd' : isDyn ctx l = false ∧ isDyn ctx r = false := by simpa using hd
+            rw [constType_nondyn ctx σ hT l tl htl hd'.1, constType_nondyn ctx σ hT r tr htr hd'.2, hent]
+        have hcan := hT.canonical ent (lookup_mem _ _ _ _ _ hent)
+        obtain ⟨k1, k2, k3⟩ := lookup_key hent
+        obtain ⟨c1, c2, c3, c4⟩ := canon_fields ent hcan
+        have hlm : ent.lm = tl := c1.trans k2
+        have hrm : ent.rm = tr := c2.trans k3
+        have hres : ent.res = t := c3.symm.trans hret
+        rw [k1] at c4
+        have hw : t = .bool ∨ t = .int ∨ t = .float ∨ t = .string ∨ t = .duration := by
+          have := binType_val ht
+          cases t <;> simp [isValTy] at this <;> simp
+        simp only [evalN, hspec, hw, if_true, hlm, hrm]
+        simp only [valRef]
+        obtain ⟨a1, a2⟩ := ihl w.1 tl st h hr htl
+        rcases hvl : valRef ctx σ l h with ⟨ol, h1⟩
+        rcases hnl : evalN ctx σ tl l st with ⟨rl, st1⟩
+        rw [hvl, hnl] at a1 a2
+        simp only at a1 a2
+        subst a1
+        cases rl with
+        | err => exact ⟨rfl, a2⟩
+        | trap => exact ⟨rfl, a2⟩
+        | ok vl =>
+          have hvlty : vl.ty = tl := evalN_ty ctx σ l tl st vl (by rw [hnl])
+          -- the general (no short circuit) continuation
+          have cont :
+              ((match (evalN ctx σ tr r st1).fst with
+                | .ok vr => (chk t (ent.compute ctx.ops ctx.reMatch vl vr), (evalN ctx σ tr r st1).snd)
+                | o => (o, (evalN ctx σ tr r st1).snd)) : Outcome (Value F) × FnState F).1 =
+                (match valRef ctx σ r h1 with
+                 | (.ok vr, h2) => (refBinop ctx.ops ctx.reMatch op vl vr, h2)
+                 | x => x).1 ∧
+              StateRel ctx ((match (evalN ctx σ tr r st1).fst with
+                | .ok vr => (chk t (ent.compute ctx.ops ctx.reMatch vl vr), (evalN ctx σ tr r st1).snd)
+                | o => (o, (evalN ctx σ tr r st1).snd)) : Outcome (Value F) × FnState F).2
+                (match valRef ctx σ r h1 with
+                 | (.ok vr, h2) => (refBinop ctx.ops ctx.reMatch op vl vr, h2)
+                 | x => x).2 := by
+            obtain ⟨b1, b2⟩ := ihr w.2 tr st1 h1 a2 htr
+            rcases hvr : valRef ctx σ r h1 with ⟨or_, h2⟩
+            rcases hnr : evalN ctx σ tr r st1 with ⟨rr, st2⟩
+            rw [hvr, hnr] at b1 b2
+            simp only at b1 b2
+            subst b1
+            cases rr with
+            | err => exact ⟨rfl, b2⟩
+            | trap => exact ⟨rfl, b2⟩
+            | ok vr =>
+              have hvrty : vr.ty = tr := evalN_ty ctx σ r tr st1 vr (by rw [hnr])
+              have hcs := (canon_sound ctx.ops ctx.reMatch ent hcan vl vr (hvlty.trans k2.symm) (hvrty.trans k3.symm)).1
+              simp only
+              rw [chk_id t _ (fun v hv => (compute_ty ctx ent vl vr v hv).trans hres), hcs, k1]
+              exact ⟨rfl, b2⟩
+          simp only [Bool.false_eq_true, if_false]
+          cases op <;> simp only at c4
+          all_goals first
+            | (simp only [c4]; exact cont)
+            | skip
+          · have ht' : t = .bool := binType_comp rfl ht
+            cases vl with
+            | bool b =>
+              cases b with
+              | false => subst ht'; simp [c4, chk, Value.ty, a2]
+              | true => simp only [c4]; exact cont
+            | _ => simp only [c4]; exact cont
+          · have ht' : t = .bool := binType_comp rfl ht
+            cases vl with
+            | bool b =>
+              cases b with
+              | true => subst ht'; simp [c4, chk, Value.ty, a2]
+              | false => simp only [c4]; exact cont
+            | _ => simp only [c4]; exact cont
+
+/-- `Expression.Eval` and `Type`+`EvalBool` (cache erased) on a well-typed point of value type. -/
+theorem runPathN_agree (hT : TblOK ctx.tbl) (hF : FnOK ctx) (e : Expr F) (p : Path) (t : Ty) (st : FnState F) (h : Hist F)
+    (hwf : noMissingLit e = true) (hr : StateRel ctx st h) (ht : typeRef ctx σ e = some t)
+    (hp : (p = .eval ∧ isValTy t = true) ∨ (p = .pred ∧ t = .bool) ∨ p = .direct t) :
+    (runPathN ctx σ p e st).1 = (valRef ctx σ e h).1 ∧ StateRel ctx (runPathN ctx σ p e st).2 (valRef ctx σ e h).2 := by
+  have hag := agree_all ctx σ hT hF e hwf t st h hr ht
+  have htp := typeP_typeRef ctx σ hT e t ht
+  have hnt : TblNoTrap ctx := by
+    intro ent hm vl vr hl hr'
+    have hc := hT.canonical ent hm
+    obtain ⟨c1, c2, _, _⟩ := canon_fields ent hc
+    exact (canon_sound ctx.ops ctx.reMatch ent hc vl vr (hl.trans c1) (hr'.trans c2)).2
+  rcases hp with ⟨rfl, hv⟩ | ⟨rfl, rfl⟩ | rfl
+  · have hw : t = .int ∨ t = .float ∨ t = .string ∨ t = .bool ∨ t = .duration := by
+      cases t <;> simp [isValTy] at hv <;> simp
+    simp only [runPathN, evalTopN, htp, hw, if_true]
+    have hne := evalN_trap ctx σ hnt e t st
+    rcases hn : evalN ctx σ t e st with ⟨r, st'⟩
+    rw [hn] at hag hne
+    cases r with
+    | trap => exact absurd rfl hne
+    | ok v => exact hag
+    | err => exact hag
+  · simp only [runPathN, evalPredN, htp]; exact hag
+  · exact hag
 end
 end Kap.C04
